@@ -50,8 +50,12 @@ static void run_case(char* line) {
     }
     fflush(stdout);
   }
-  printf("v%d%s\n", ds_verdict(), ds_err ? " schederr" : "");
-  if (ds_verdict() == 0) uv_barrier_destroy(&bar);
+  printf("v%d%s", ds_verdict(), ds_err ? " schederr" : "");
+  /* uv_barrier_destroy would block for ever (real primitives, nobody left to wake us) */
+  if (ds_verdict() == 0 && (bar.b->out != 0 || bar.b->in != 0)) printf(" undrained");
+  printf("\n");
+  fflush(stdout);
+  if (ds_verdict() == 0 && bar.b->out == 0 && bar.b->in == 0) uv_barrier_destroy(&bar);
 }
 
 int main(void) { return ds_main(run_case); }
